@@ -53,6 +53,12 @@ func c11Monitor(run *ev.Run, spec world.Spec) hMonitor {
 		if strings.HasPrefix(o.Req.Path, "/callback") || o.SID == "" || o.PreGhost == nil || o.PreGhost.Tokens == nil {
 			return
 		}
+		// what a session holds may only change through the store's write, which comes after the validation of the
+		// refresh result: content that changes behind the interface is a result other checks see before (or without) it
+		if strings.HasPrefix(o.Drift, "tokens:") && len(o.TokenReqs) > 0 {
+			viol("refresh-result-in-the-session-before-validation", o.Drift, hist, o.Event)
+			return
+		}
 		old := o.PreGhost.Tokens
 		idIss := w.IdP.Issued[old.IDToken]
 		expired := idIss != nil && idIss.Exp.Before(o.Now)
